@@ -188,6 +188,55 @@ func ruleC15(c *Ctx) {
 
 	// WRAPPERS
 	checkReturnIs(c, "WRAPPERS", "Read", w.fn("io/polyjson", "Read"), 0, "call[poly/io/polyjson.Parse](extract[0](call[os.ReadFile](param[0])))", "Read(path) = Parse(ReadFile(path))")
+	// a record decoded in Read itself and returned as it comes out of the decoder: nothing re-links its features
+	if rd := w.fn("io/polyjson", "Read"); rd != nil {
+		rtb := newTB(rd)
+		rtb.NoInline = true
+		for _, alt := range resultAlts(rtb, rd, 0) {
+			decoded := alt.T.contains(func(x *Term) bool {
+				return x.Op == "outparam" && (strings.Contains(x.Name, "encoding/json") || strings.Contains(x.Name, "json."))
+			})
+			viaParse := alt.T.contains(func(x *Term) bool { return x.Op == "call" && inModuleName(x.Name) })
+			if !decoded || viaParse {
+				continue
+			}
+			followed := true
+			// a Sequence that decodes itself may re-link in that method
+			for _, tt := range typeClosure(seqObj.Type()) {
+				ms := types.NewMethodSet(types.NewPointer(tt))
+				for k := 0; k < ms.Len(); k++ {
+					if ms.At(k).Obj().Name() == "UnmarshalJSON" {
+						followed = false
+					}
+				}
+			}
+			eachInstr(rd, func(i ssa.Instruction) {
+				ci, ok := i.(ssa.CallInstruction)
+				if !ok {
+					return
+				}
+				callee := ci.Common().StaticCallee()
+				switch {
+				case callee == nil:
+					if _, isB := ci.Common().Value.(*ssa.Builtin); !isB {
+						followed = false // an interface method or function value: not followed
+					}
+				case inModule(callee) && fname(callee) != "poly/io/polyjson.Parse":
+					followed = false // a helper that may do the re-linking
+				}
+			})
+			eachInstr(rd, func(i ssa.Instruction) {
+				if stx, ok := i.(*ssa.Store); ok {
+					if fa, ok := stx.Addr.(*ssa.FieldAddr); ok && storeFieldName(fa) == "ParentSequence" {
+						followed = false
+					}
+				}
+			})
+			if followed {
+				c.bad("RELINK", "Read hands back a re-linked record", alt.Ret.Pos(), "Read decodes the JSON itself and returns the record as the decoder filled it ("+short(alt.T.String())+"): the features' ParentSequence (json:\"-\") stays nil, so GetSequence fails on every feature of a record that was read from a file")
+			}
+		}
+	}
 	checkFileWrite(c, "WRAPPERS", "Write", w.fn("io/polyjson", "Write"), 1, `extract[0](call[encoding/json.MarshalIndent](param[0], const[""], const[" "]))`)
 
 	// the JSON document is never edited as text: a substitution on the serialised bytes (or on the input
@@ -475,4 +524,10 @@ func checkJSONRelink(c *Ctx, parse *ssa.Function, seqT types.Type) {
 		}
 	}
 	c.judge(st, "RELINK", "Parse:AddFeature for every decoded feature", af.Pos(), "every decoded feature is re-added, unconditionally and in order, to the returned sequence, which carries every other decoded field", why)
+}
+
+
+// inModuleName: the printed name of a callee belongs to the module under analysis.
+func inModuleName(n string) bool {
+	return strings.HasPrefix(n, "poly/") || strings.HasPrefix(n, "(poly/") || strings.HasPrefix(n, "(*poly/")
 }
